@@ -438,6 +438,7 @@ func (fr *Frame) cutLoop(li *loopInfo, st *State, pc Term, phiEntry map[*ssa.Phi
 	// 1. discover what the loop modifies
 	snap := u.snapshot()
 	snapHeap0 := snap.heap0
+	writeMark := len(u.m.writes)
 	u.discov++
 	sub := fr.cloneForDiscovery()
 	sub.run(li.blocks, li.header, st, pc, phiEntry, true)
@@ -487,6 +488,21 @@ func (fr *Frame) cutLoop(li *loopInfo, st *State, pc Term, phiEntry map[*ssa.Phi
 			}
 		}
 	}
+	// components whose only writes inside the loop hit objects allocated inside the loop keep their
+	// contents on all pre-existing objects (frame)
+	framed := map[string]bool{}
+	for k := range modHeap {
+		framed[k] = true
+	}
+	for _, w := range u.m.writes[writeMark:] {
+		if !framed[w.comp] {
+			continue
+		}
+		if w.base == "" || !u.m.nonNil[w.base] || symIndex(w.base) <= snap.n {
+			framed[w.comp] = false
+		}
+	}
+	u.m.writes = u.m.writes[:writeMark]
 	u.discov--
 	u.restore(snap)
 
@@ -526,6 +542,11 @@ func (fr *Frame) cutLoop(li *loopInfo, st *State, pc Term, phiEntry map[*ssa.Phi
 		}
 		nst.heap[k] = u.c.Fresh("hv_"+k, modSorts[k])
 		hvRefs = append(hvRefs, k)
+		if framed[k] && strings.HasPrefix(string(modSorts[k]), "(Array Int ") {
+			oldc := u.m.comp(st, k, modSorts[k])
+			u.c.Raw(fmt.Sprintf("(assert (forall ((r Int)) (! (=> (< r %s) (= (select %s r) (select %s r))) :pattern ((select %s r)))))",
+				st.alloc.S, nst.heap[k].S, oldc.S, nst.heap[k].S))
+		}
 	}
 	hk = hk[:0]
 	for k := range modGhost {
@@ -744,4 +765,20 @@ func (u *Unit) globalPtr(g *ssa.Global) Value {
 		p.Obj = elem
 	}
 	return p
+}
+
+// symIndex extracts N from a generated symbol name "prefix!N" (0 if none).
+func symIndex(s string) int {
+	i := strings.LastIndexByte(s, '!')
+	if i < 0 {
+		return 0
+	}
+	n := 0
+	for _, c := range s[i+1:] {
+		if c < '0' || c > '9' {
+			return 0
+		}
+		n = n*10 + int(c-'0')
+	}
+	return n
 }
